@@ -7,10 +7,10 @@ HOOKS = dict(
     add_only=True,
 )
 ENGINES = [
-    dict(name="kani-harnesses", path="/verif/vk/kani_unit.py", serves_properties=["C01", "C02", "C08", "C09"],
+    dict(name="kani-harnesses", path="/verif/vk/kani_unit.py", serves_properties=["C01", "C02", "C08", "C09", "C12"],
          kind_free_text="cargo kani on the real crate; harness files /verif/kani/*_proofs.rs are compiled into the defining modules through cfg(kani) hooks; "
                         "loop-free full-domain harnesses are complete, harnesses with symbolic strings are bounded stand-ins and never counted as proved"),
-    dict(name="verus-units", path="/verif/vk/verus_unit.py", serves_properties=["C01", "C02", "C03", "C08", "C09", "C10", "C13", "C15", "C16", "C19"],
+    dict(name="verus-units", path="/verif/vk/verus_unit.py", serves_properties=["C01", "C02", "C03", "C08", "C09", "C10", "C12", "C13", "C15", "C16", "C19"],
          kind_free_text="mechanical extraction of the real functions (vk/extract.py, rules R1-R8) + contracts/<unit>.vc, discharged by Verus 0.2026.09.13 / Z3; "
                         "every diagnostic is mapped back to a named obligation (function::label)"),
 ]
@@ -64,6 +64,16 @@ CHECKS = {
         level_note="The decision of a stored permission list (parse + pattern match) is an uninterpreted function (iterator pipelines are out of reach for both "
                    "back ends). That every dispatcher arm uses the right guard, the use-db arm, and mid-session changes are NOT decided.",
     ),
+    "C12": dict(
+        engine="verus-units+kani", design_ref="DESIGN.md §5 C12", technique="deductive verification (Verus/Z3) with loop invariants over an abstract file model; complete Kani harness for the op-kind codec",
+        text="Unbounded proof over all logs (any number of 25-byte records with non-decreasing, possibly repeating timestamps) and all starting timestamps: "
+             "read_operations_since_from_file - the real binary search, look-back and linear scan, with inductive invariants - returns every (database, key) "
+             "that has a record at or after the timestamp, each labelled with the time / db / key / kind of its most recent record, leaves other entries alone, "
+             "and never underflows or reads out of bounds; Oplog::last_op_time is the newest record's timestamp (0 for an empty log); Oplog::write_op_log "
+             "appends exactly one record and decoding it gives the fields back (round-trip lemma). Kani: ReplicateOpp to_u8/from over all 256 bytes.",
+        level_note="Trusted file model (see evidence). Rotation / remove_old_db_files, the directory loop of read_operations_since, termination of the search "
+                   "loop, and the writer-side facts 'timestamps never go back' and 'whole records' (preconditions) are NOT decided.",
+    ),
     "C13": dict(
         engine="verus-units", design_ref="DESIGN.md §5 C13", technique="deductive verification (Verus/Z3) of function contracts on extracted real code",
         text="Single-call clauses, single node, for all states: the Arbiter branch of try_resolve_conflict_response either refuses and changes nothing (no arbiter "
@@ -115,7 +125,6 @@ NOT_APPLICABLE = {
     "C06": "Snapshot/restore relates two runs through std::fs files written by one 110-line function with three buffered writers plus in-place write_at; deciding it needs a file-system model and a cross-snapshot offset invariant beyond what could be brought within Verus' reach; Kani has no file I/O and cannot build the map.",
     "C07": "Election outcome depends on timers, thread sleeps and message interleavings; election_eval's comparison is inseparable from the blocking start_election it calls.",
     "C11": "Crash points of a writer are not expressible as pre/postconditions of a call; neither verifier has a crash-consistent file model.",
-    "C12": "contract not completed yet (in progress)",
     "C14": "A bound on inter-node traffic is a global ranking argument over the dispatcher and the replication loop on several nodes.",
     "C17": "The counter's balance is decided in the use-db arm of the dispatcher (previous selection is not released there); inc/dec/left contracts alone do not carry the property.",
     "C18": "Both S3 strategies are async AWS-SDK network code inside a tokio runtime.",
